@@ -3258,3 +3258,189 @@ def pair12_file_level_pairs(P, R, L, rule="PAIR-12"):
                     det.append("the store of %s at line %s has no accompanying store of %s" % (fa, a[2].get("line"), fb))
             R.check(rule, "%s|%s+%s" % (p, fa, fb), not det, where(b), "%s and %s are always written together" % (fa, fb), "; ".join(det) or "%d + %d stores" % (len(sa), len(sb)))
     R.floor(rule, "bodies that write a (file, level) pair", n, 3)
+
+
+# ------------------------------------------------------------------------------------------- SRC-1 the client iterator merges every source
+def src1_iterator_sources(P, R, L, rule="SRC-1"):
+    """DB::new_iterator merges the mutable memtable, the immutable memtable (whenever there is one) and every iterator
+    of the current version; Version::get_representative_iterators yields one iterator per level-0 file and one
+    concatenating iterator per non-empty deeper level, for every level."""
+    b = P.body(NEW_ITER)
+    if b is None:
+        R.missing_anchor(rule, NEW_ITER)
+    else:
+        R.analysed(b)
+        sink = [c for c in b.calls() if not b.is_cleanup(c.bb) and c.name == "versioning::file_iterators::MergingIterator::new"]
+        if not sink:
+            R.check(rule, NEW_ITER + "|anchors", False, where(b), "new_iterator builds a MergingIterator", "not found")
+        else:
+            s0 = sink[0]
+            vec = {l for l in roots(b, s0.args[0]) if b.local_name(l)}
+            adds = [c for c in b.calls() if not b.is_cleanup(c.bb) and c.name in ("std::vec::Vec::push", "std::vec::Vec::append", "std::vec::Vec::extend", "<std::vec::Vec<T, A> as std::iter::Extend<T>>::extend")
+                    and roots(b, c.args[0]) & vec]
+
+            def fed_by(c, pred):
+                for o in origins(b, c.args[1]):
+                    if o.kind == "call" and pred(o):
+                        return True
+                return False
+
+            def recv(o):
+                return origins(b, o.site.args[0]) if o.site is not None and o.site.args else []
+            mem = [c for c in adds if fed_by(c, lambda o: o.name == "memtable::MemTable::iter" and any(x.kind == "call" and x.name == MEMTABLE for x in recv(o)))]
+            imm = [c for c in adds if fed_by(c, lambda o: o.name == "memtable::MemTable::iter" and any("maybe_immutable_memtable" in x.path for x in recv(o)))]
+            ver = [c for c in adds if fed_by(c, lambda o: o.name == "versioning::version::Version::get_representative_iterators")]
+            ok_m = bool(mem) and b.must_pass(s0.bb, through_nodes=[c.bb for c in mem])
+            ok_v = bool(ver) and b.must_pass(s0.bb, through_nodes=[c.bb for c in ver])
+            none_edges = []
+            for c in b.calls():
+                if not b.is_cleanup(c.bb) and c.name in ("std::option::Option::is_some", "std::option::Option::is_none") and c.args and \
+                        any("maybe_immutable_memtable" in o.path for o in origins(b, c.args[0])):
+                    for t in _bt(b, c.dest["l"]):
+                        none_edges += [(t.bb, x) for x in (t.err if c.name.endswith("is_some") else t.ok)]
+            from ..rules import _switches_on_local, switch_target
+            for bb in range(b.n):
+                for st in b.blocks[bb]["stmts"]:
+                    if st["k"] == "assign" and st["rv"]["k"] == "discr" and not st["pl"]["p"] and "Option<" in b.local_ty(st["rv"]["pl"]["l"]) and \
+                            any("maybe_immutable_memtable" in o.path for o in origins(b, {"k": "copy", "pl": st["rv"]["pl"]})):
+                        for sb in _switches_on_local(b, st["pl"]["l"]):
+                            none_edges.append((sb, switch_target(b.term(sb), 0)))
+            ok_i = bool(imm) and bool(none_edges) and b.must_pass(s0.bb, through_nodes=[c.bb for c in imm], through_edges=none_edges)
+            R.check(rule, NEW_ITER + "|memtable-iterator-merged", ok_m, s0.where(), "the mutable memtable's iterator is always among the merged children", "push sites %d" % len(mem))
+            R.check(rule, NEW_ITER + "|immutable-memtable-iterator-merged", ok_i, s0.where(),
+                    "the immutable memtable's iterator is merged on every path except the one where there is none", "push sites %d, none-edges %d" % (len(imm), len(none_edges)))
+            R.check(rule, NEW_ITER + "|version-iterators-merged", ok_v, s0.where(), "the current version's iterators are always among the merged children", "sites %d" % len(ver))
+    g = P.body("versioning::version::Version::get_representative_iterators")
+    if g is None:
+        return R.missing_anchor(rule, "versioning::version::Version::get_representative_iterators")
+    R.analysed(g)
+    pushes = [c for c in g.calls() if not g.is_cleanup(c.bb) and c.name == "std::vec::Vec::push"]
+    l0 = [c for c in pushes if any(o.kind == "call" and o.name == "tables::table::Table::iter_with" for o in origins(g, c.args[1]))]
+    ln = [c for c in pushes if any(o.kind == "call" and o.name == "versioning::file_iterators::FilesEntryIterator::new" for o in origins(g, c.args[1]))]
+    ok0 = bool(l0) and all(in_cycle(g, c.bb) for c in l0)
+    # level-0 loop iterates files[0]; the table opened is the file's own number
+    tbl = [c for c in g.calls() if not g.is_cleanup(c.bb) and c.name == "table_cache::TableCache::find_table"]
+    ok0 = ok0 and bool(tbl) and all(any(o.kind == "call" and (o.name or "").endswith("::file_number") for o in origins(g, c.args[1])) for c in tbl)
+    R.check(rule, g.path + "|one-iterator-per-level0-file", ok0, where(g), "every level-0 file gets its own table iterator (opened by the file's number), inside the loop over files[0]", "push sites %d" % len(l0))
+    # deeper levels: Range { 1, MAX } and the only skip is the is_empty edge
+    rng = None
+    for bb in range(g.n):
+        for st in g.blocks[bb]["stmts"]:
+            if st["k"] == "assign" and st["rv"]["k"] == "aggregate" and "Range" in (st["rv"].get("adt") or ""):
+                a, e = st["rv"]["ops"]
+                if a["k"] == "const" and e["k"] == "const":
+                    rng = (a.get("val"), e.get("val"))
+    # number of levels: the bound of the version builder's `for level in 0..MAX_NUM_LEVELS` (sibling agreement, no literal)
+    nlev = None
+    vb = P.body(VB + "::apply_changes")
+    if vb is not None:
+        for bb in range(vb.n):
+            for st in vb.blocks[bb]["stmts"]:
+                if st["k"] == "assign" and st["rv"]["k"] == "aggregate" and "Range" in (st["rv"].get("adt") or ""):
+                    a, e = st["rv"]["ops"]
+                    if a["k"] == "const" and e["k"] == "const" and a.get("val") == "0":
+                        nlev = e.get("val")
+    okr = rng is not None and rng[0] == "1" and nlev is not None and rng[1] == nlev
+    empty_edges = []
+    for c in g.calls():
+        if not g.is_cleanup(c.bb) and (c.name or "").endswith("::is_empty") and any("files" in o.path for o in origins(g, c.args[0])):
+            for t in _bt(g, c.dest["l"]):
+                empty_edges += [(t.bb, x) for x in t.ok]
+    okn = bool(ln) and all(in_cycle(g, c.bb) for c in ln)
+    if okn:
+        # from the loop's `Some(level)` edge every path back to the loop head passes the push or the is_empty edge
+        nxt = [c for c in g.calls() if not g.is_cleanup(c.bb) and c.name == "std::iter::range::next"]
+        for n_ in nxt:
+            for t in option_tests(g, n_.dest["l"]):
+                for e in t.ok:
+                    r = g.reachable(e, removed_nodes=[c.bb for c in ln], removed_edges=empty_edges)
+                    if n_.bb in r:
+                        okn = False
+    R.check(rule, g.path + "|one-iterator-per-deeper-level", okr and okn, where(g),
+            "levels 1..MAX_NUM_LEVELS each contribute a concatenating iterator unless the level is empty", "range %s, push sites %d, empty-level edges %d" % (rng, len(ln), len(empty_edges)))
+
+
+# ------------------------------------------------------------------------------------------- SRC-2 the point-lookup candidate list
+def src2_lookup_candidates(P, R, L, rule="SRC-2"):
+    """Version::get_overlapping_files: level-0 candidates are ordered newest file first (descending file number), every
+    deeper level is consulted (1..MAX_NUM_LEVELS) and its candidate is filed under its own level; Version::get walks
+    the levels in ascending order."""
+    fn = "versioning::version::Version::get_overlapping_files"
+    b = P.body(fn)
+    if b is None:
+        return R.missing_anchor(rule, fn)
+    R.analysed(b)
+    sorts = [c for c in b.calls() if not b.is_cleanup(c.bb) and ("sort_by_key" in (c.name or "") or "sort_by" in (c.name or "") or "sort_unstable_by" in (c.name or ""))]
+    newest_first = False
+    for c in sorts:
+        for cp in b.closure_of_operand(c.args[1]):
+            cb = P.bodies.get(cp)
+            if cb is None:
+                continue
+            R.analysed(cb)
+            for bb in range(cb.n):
+                for st in cb.blocks[bb]["stmts"]:
+                    if st["k"] == "assign" and st["rv"]["k"] == "aggregate" and (st["rv"].get("adt") or "").endswith("cmp::Reverse") and \
+                            any(o.kind == "call" and (o.name or "").endswith("::file_number") for o in origins(cb, st["rv"]["ops"][0])):
+                        newest_first = True
+            # sort_by(|a, b| b.file_number().cmp(&a.file_number()))
+            for cc in cb.calls():
+                if (cc.declared_name or "") == "std::cmp::Ord::cmp" and len(cc.args) == 2:
+                    def p_of(op):
+                        for o in origins(cb, op):
+                            if o.kind == "call" and (o.name or "").endswith("::file_number") and o.site is not None:
+                                ps = {x.name for x in origins(cb, o.site.args[0]) if x.kind == "param"}
+                                if len(ps) == 1:
+                                    return ps.pop()
+                        return None
+                    a0, a1 = p_of(cc.args[0]), p_of(cc.args[1])
+                    if a0 and a1 and a0 > a1:
+                        newest_first = True
+    # the sort comes after the level-0 collection loop and before the return
+    ok_sort = newest_first and bool(sorts) and all(b.must_pass(r, through_nodes=[c.bb for c in sorts]) for r in b.return_blocks())
+    R.check(rule, fn + "|level0-newest-first", ok_sort, where(b), "level-0 candidates are sorted by descending file number on every path", "sort sites %d" % len(sorts))
+    rng = None
+    for bb in range(b.n):
+        for st in b.blocks[bb]["stmts"]:
+            if st["k"] == "assign" and st["rv"]["k"] == "aggregate" and "Range" in (st["rv"].get("adt") or ""):
+                a, e = st["rv"]["ops"]
+                if a["k"] == "const" and e["k"] == "const":
+                    rng = (a.get("val"), e.get("val"))
+    nlev = None
+    vb = P.body(VB + "::apply_changes")
+    if vb is not None:
+        for bb in range(vb.n):
+            for st in vb.blocks[bb]["stmts"]:
+                if st["k"] == "assign" and st["rv"]["k"] == "aggregate" and "Range" in (st["rv"].get("adt") or ""):
+                    a, e = st["rv"]["ops"]
+                    if a["k"] == "const" and e["k"] == "const" and a.get("val") == "0":
+                        nlev = e.get("val")
+    R.check(rule, fn + "|all-deeper-levels", rng is not None and rng[0] == "1" and nlev is not None and rng[1] == nlev, where(b),
+            "levels 1..MAX_NUM_LEVELS are all consulted", "range %s, number of levels %s" % (rng, nlev))
+    # candidate filed under its own level: the push target files[i] and the source self.files[j] use the same index local
+    ff = [c for c in b.calls() if not b.is_cleanup(c.bb) and c.name == "versioning::utils::find_file_with_upper_bound_range"]
+    pushes = [c for c in b.calls() if not b.is_cleanup(c.bb) and c.name == "std::vec::Vec::push" and in_cycle(b, c.bb)]
+    ok_lvl = bool(ff)
+
+    def named_src(l, depth=0):
+        if b.local_name(l) is not None or depth > 6:
+            return l
+        ds = [x for x in b.defs().get(l, []) if x[0] == "stmt" and x[3]["rv"]["k"] == "use" and x[3]["rv"]["ops"][0]["k"] in ("copy", "move")
+              and not x[3]["rv"]["ops"][0]["pl"]["p"]]
+        return named_src(ds[0][3]["rv"]["ops"][0]["pl"]["l"], depth + 1) if len(ds) == 1 else l
+    _il = _index_locals
+    _index_locals_n = lambda body, op: [named_src(x) for x in _il(body, op)]
+    for f_ in ff:
+        src_idx = set(_index_locals_n(b, f_.args[0]))
+        after = [p_ for p_ in pushes if p_.bb in b.reachable(f_.bb)]
+        tgt_idx = set()
+        for p_ in after:
+            tgt_idx |= set(_index_locals_n(b, p_.args[0]))
+        if not src_idx or not tgt_idx or tgt_idx != src_idx:
+            ok_lvl = False
+    R.check(rule, fn + "|candidate-filed-under-its-level", ok_lvl, where(b), "the file found in self.files[level] is pushed to files[level]", "")
+    g = P.body(VERSION_GET)
+    if g is not None:
+        R.analysed(g)
+        rev = [c for c in g.calls() if not g.is_cleanup(c.bb) and ((c.name or "").endswith("::rev") or "iter::Rev" in (c.name or ""))]
+        R.check(rule, VERSION_GET + "|levels-ascending", not rev, where(g), "Version::get walks the candidate lists from level 0 downwards (no reversed iteration)", "rev sites %d" % len(rev))
